@@ -297,6 +297,14 @@ class CFG:
             return self._cond(expr.operand, f, t, ctx)
         if isinstance(expr, ast.Constant):
             return t if expr.value else f
+        if isinstance(expr, ast.Compare) and len(expr.ops) > 1 and all(
+                isinstance(x, (ast.Name, ast.Attribute, ast.Constant, ast.Load)) for m in expr.comparators[:-1]
+                for x in ast.walk(m)):
+            # `a <= b < c` with a stable middle operand is `a <= b and b < c`
+            operands = [expr.left] + list(expr.comparators)
+            parts = [ast.copy_location(ast.Compare(left=operands[i], ops=[op], comparators=[operands[i + 1]]), expr)
+                     for i, op in enumerate(expr.ops)]
+            return self._cond(ast.copy_location(ast.BoolOp(op=ast.And(), values=parts), expr), t, f, ctx)
         if isinstance(expr, ast.Compare) and len(expr.ops) == 1 and isinstance(expr.left, ast.Constant) \
                 and isinstance(expr.comparators[0], ast.Constant) and isinstance(expr.ops[0], (ast.Is, ast.IsNot, ast.Eq, ast.NotEq)):
             l, r = expr.left.value, expr.comparators[0].value
